@@ -5,8 +5,8 @@ from vcheck import parse_edges, write_json
 META = {
     "property_id": "C31",
     "level": "model_checking",
-    "technique": "TLA+ spec (GasBudget.tla) model-checked with TLC; every TLC transition replayed on vm.GasBudget; recorded Go traces validated against GasBudgetTrace.tla",
-    "text": "TLC explores every sequence of budget operations over bounded values on GasBudget.tla (conservation, non-negativity, charge<=>affordable, reservoir returned on revert/halt as invariants); every transition of the reachable graph is executed on the real vm.GasBudget and compared field by field; seeded random operation sequences on the real struct are recorded and TLC checks each trace is a behaviour of the specification with all invariants evaluated at every step.",
+    "technique": "TLA+ specs (GasBudget.tla, Settlement.tla) model-checked with TLC; every TLC transition replayed on vm.GasBudget; recorded Go traces validated against GasBudgetTrace.tla",
+    "text": "TLC explores every sequence of budget operations over bounded values on GasBudget.tla (conservation, non-negativity, charge<=>affordable, reservoir returned on revert/halt as invariants); every transition of the reachable graph is executed on the real vm.GasBudget and compared field by field; seeded random operation sequences on the real struct are recorded and TLC checks each trace is a behaviour of the specification with all invariants evaluated at every step. Settlement.tla (refund cap, calldata floor, legacy and two-dimensional block pool) is model-checked and every transaction applied by the real core.ApplyMessage/GasPool in random blocks under London/Prague/Amsterdam rules is validated as an Included/Rejected step of it.",
     "note": "Trusts TLC, the ndjson projection in harness/cmd/c31 (five struct fields per frame), and that uint64 values below 2^31 are representative (TLC integers).",
     "design_ref": "3.5 C31",
 }
@@ -30,5 +30,14 @@ def run(ctx):
     ok, consumed, total, r = ctx.validate("evm/GasBudgetTrace", tp, ntraces=s["traces"], timeout=ctx.pick(300, 1500))
     if not ok:
         ctx.reject_trace("evm/GasBudgetTrace", tp, consumed, r)
+    # ---- second half: transaction settlement and the block gas pool
+    drv2 = ctx.build("c31s")
+    ctx.model_check("evm/Settlement", "evm/MCSettlement" if not ctx.thorough else "evm/MCSettlementThorough",
+                    timeout=ctx.pick(300, 1500), name="MCSettlement")
+    tp2 = os.path.join(ctx.scratch, "settle.ndjson")
+    s2, _ = ctx.drive(drv2, ["-trace", tp2, "-blocks", ctx.pick(150, 4000)], name="c31s-record")
+    ok, consumed, total, r = ctx.validate("evm/SettlementTrace", tp2, ntraces=s2["traces"], timeout=ctx.pick(300, 1500))
+    if not ok:
+        ctx.reject_trace("evm/SettlementTrace", tp2, consumed, r)
     return ctx.finish(rule="MC: all operation sequences over values 0..MaxGas and depth<=MaxDepth; R: all graph edges; V: random sequences",
                       assumptions=["values < 2^31 (TLC integer range)", "Exit+Absorb observed as one step"])
